@@ -71,40 +71,50 @@ def run(ctx):
     rd = s.func("read_alignment_from_cigar")
     loop = [st for st in stmts(rd) if isinstance(st, ast.For) and "operations" in ast.unparse(st.iter)]
     ctx.need(loop, "operation loop of read_alignment_from_cigar")
-    chain = next(st for st in loop[0].body if isinstance(st, ast.If))
+    # What the loop body does for each operation is obtained by partial evaluation: the body is composed symbolically with `op`
+    # fixed to the operation and the module's literal tables in scope, so that `op in (..)`, `op == ..`, `TABLE[op]` are decided.
+    # The result does not depend on how the dispatch is written (if/elif ladder, lookup table, flags).
+    from ..exprnorm import summarize_block as _sb
+    tables = {st.targets[0].id: st.value for st in s.tree.body if isinstance(st, ast.Assign) and len(st.targets) == 1
+              and isinstance(st.targets[0], ast.Name) and isinstance(st.value, (ast.Dict, ast.Tuple, ast.List, ast.Set))}
+    op_var = [n_.id for n_ in ast.walk(loop[0].target) if isinstance(n_, ast.Name)][0]
     handled = {}
-    node = chain
     has_else_raise = False
-    while node is not None:
-        ops = ops_in(node.test)
-        adv_ref = any(isinstance(b, ast.AugAssign) and isinstance(b.target, ast.Name) and b.target.id == "ref_pos"
-                      and isinstance(b.op, ast.Add) and ast.unparse(b.value) == "length" for b in node.body)
-        adv_seg = any(isinstance(b, ast.AugAssign) and isinstance(b.target, ast.Name) and b.target.id == "seg_pos"
-                      and isinstance(b.op, ast.Add) and ast.unparse(b.value) == "length" for b in node.body)
+
+    def strip_inplace(e):
+        while isinstance(e, ast.Call) and call_name(e) == "__inplace__" and e.args:
+            e = e.args[0]
+        return e
+    for mname in members:
+        env0 = dict(tables)
+        env0[op_var] = ast.parse(f"CigarOp.{mname}", mode="eval").body
+        sm_ = _sb(loop[0].body, env0=env0)
+        if sm_.unsupported:
+            raise AnalysisError(f"anchor vanished: loop body of read_alignment_from_cigar cannot be composed ({sm_.unsupported})")
+        if sm_.always_raises:
+            has_else_raise = True
+            continue
+        adv = {}
+        for pv in ("ref_pos", "seg_pos"):
+            v = strip_inplace(sm_.env.get(pv)) if pv in sm_.env else None
+            adv[pv] = True if v is not None and same_expr(v, f"{pv} + length") else False if v is None or same_expr(v, pv) else "?"
         cols = {}
-        for b in node.body:
-            if isinstance(b, ast.Assign) and isinstance(b.targets[0], ast.Subscript) and dotted(b.targets[0].value) == "trace":
-                col = b.targets[0].slice.elts[1].value
-                # exact forms only: -1 for a gap, np.arange(p, p + length) for the running pointer p, written to rows i..i+length
-                row = b.targets[0].slice.elts[0]
-                rows_ok = isinstance(row, ast.Slice) and same_expr(row.lower, "i") and same_expr(row.upper, "i + length")
-                if same_expr(b.value, "-1"):
-                    kind = "gap"
-                elif same_expr(b.value, "np.arange(ref_pos, ref_pos + length)"):
-                    kind = "ref"
-                elif same_expr(b.value, "np.arange(seg_pos, seg_pos + length)"):
-                    kind = "seg"
-                else:
-                    kind = "?" + ast.unparse(b.value)
-                cols[col] = kind if rows_ok else "?rows " + ast.unparse(b.targets[0].slice.elts[0])
-        clip = any("clip_mask" in ast.unparse(b) and "False" in ast.unparse(b) for b in node.body)
-        for o in ops:
-            handled[o] = (adv_ref, adv_seg, cols, clip)
-        if node.orelse and isinstance(node.orelse[0], ast.If):
-            node = node.orelse[0]
-        else:
-            has_else_raise = any(isinstance(b, ast.Raise) for b in node.orelse)
-            node = None
+        t_ = sm_.env.get("trace")
+        while isinstance(t_, ast.Call) and call_name(t_) == "__set__":
+            base, idx, val = t_.args
+            sl = idx.slice if isinstance(idx, ast.Subscript) else None
+            if isinstance(sl, ast.Tuple) and len(sl.elts) == 2 and isinstance(sl.elts[1], ast.Constant):
+                col, row = sl.elts[1].value, sl.elts[0]
+                rows_ok = isinstance(row, ast.Slice) and same_expr(row.lower, "i") and same_expr(row.upper, "i + length") and row.step is None
+                kind = "gap" if same_expr(val, "-1") else "ref" if same_expr(val, "np.arange(ref_pos, ref_pos + length)") \
+                    else "seg" if same_expr(val, "np.arange(seg_pos, seg_pos + length)") else "?" + ast.unparse(val)[:40]
+                cols.setdefault(col, kind if rows_ok else "?rows " + ast.unparse(row))
+            else:
+                cols["?"] = ast.unparse(idx)[:40]
+            t_ = base
+        cm = sm_.env.get("clip_mask")
+        clip = cm is not None and same_expr(cm, "__set__(clip_mask, __idx__[i:i + length], False)")
+        handled[mname] = (adv["ref_pos"], adv["seg_pos"], cols, clip)
     for op in sorted(WRITER_EMITS):
         ctx.ob("R2.op-handled", CIG, "read_alignment_from_cigar", f"{op}", op in handled,
                f"the writer can emit {op} but the reader has no branch for it", rd.lineno)
@@ -218,6 +228,19 @@ def run(ctx):
                 continue
             counted = any(isinstance(a, ast.AugAssign) and isinstance(a.op, ast.Add) and same_expr(a.value, "1")
                           and ast.unparse(a.target) == f"{cnt}[{seqvar}]" for a in ast.walk(ts))
+        # the same with a scalar counter that is reset for every sequence (loop over the sequences outside, positions inside)
+        if isinstance(st, ast.Assign) and isinstance(st.targets[0], ast.Subscript) and ast.unparse(st.targets[0].value) == "trace" \
+                and isinstance(st.value, ast.Name) and isinstance(st.targets[0].slice, ast.Tuple) and isinstance(st.targets[0].slice.elts[1], ast.Name):
+            cnt, seqvar = st.value.id, st.targets[0].slice.elts[1].id
+            seq_loops = [lp for lp in ast.walk(ts) if isinstance(lp, ast.For) and isinstance(lp.target, ast.Name) and lp.target.id == seqvar
+                         and any(x is st for x in ast.walk(lp))]
+            for lp in seq_loops:
+                reset = any(isinstance(b, ast.Assign) and same_expr(b.targets[0], cnt) and same_expr(b.value, "0") for b in lp.body)
+                bumped = [a for a in ast.walk(lp) if isinstance(a, ast.AugAssign) and isinstance(a.op, ast.Add) and same_expr(a.value, "1") and same_expr(a.target, cnt)]
+                # the increment sits in the same block as the store (one increment per stored symbol)
+                same_block = any(st in blk and a in blk for a in bumped for node_ in ast.walk(lp) for blk in
+                                 (getattr(node_, "body", None), getattr(node_, "orelse", None)) if isinstance(blk, list))
+                counted = counted or (reset and len(bumped) == 1 and same_block)
     # _gapped_str: position -1 is the gap, everything else a symbol
     wtest = [n_ for n_ in ast.walk(gs) if isinstance(n_, ast.Compare) and len(n_.ops) == 1 and same_expr(n_.comparators[0], "-1")]
     wok = bool(wtest) and all(isinstance(n_.ops[0], (ast.NotEq, ast.Eq)) for n_ in wtest)
